@@ -12,6 +12,7 @@ import Mahotas.Proofs.C07
 import Mahotas.Proofs.C07Order
 import Mahotas.Proofs.C08Kernels
 import Mahotas.Proofs.C03Label
+import Mahotas.Model.C13
 namespace Mahotas.C12
 open Mahotas
 
@@ -1222,6 +1223,177 @@ theorem cooccurence_solo_value (kcs : List KCall) (t : Nat) (vA vR vBc : C08.Vie
 
 
 
+/-! ## value tie: borders (`C13.bordersModel`) -/
+
+/-- a prefix, then one step per pixel: a location no later step writes holds what step `k` left there -/
+theorem step_solo (F : List Step) (G : Nat → Step) (N k : Nat) (hk : k < N) (l : Loc)
+    (hlater : ∀ i, k < i → i < N → (G i).dst ≠ l) (m : Mem) :
+    execAll (F ++ (List.range N).map G) m l = (G k).exec (execAll (F ++ (List.range k).map G) m) l := by
+  induction N with
+  | zero => omega
+  | succ N ih =>
+    rw [List.range_succ, List.map_append, ← List.append_assoc, execAll_append]
+    simp only [List.map_cons, List.map_nil, execAll, List.foldl_cons, List.foldl_nil]
+    by_cases hkN : k = N
+    · subst hkN; rfl
+    · rw [exec_frame _ _ _ (fun h => hlater N (by omega) (by omega) h.symm)]
+      exact ih (by omega) (fun i h1 h2 => hlater i h1 (by omega))
+
+theorem bordersReads_spec (mA : Int → Int) (cur : Int) (as : List Int) :
+    (bordersReads mA cur as).2 = as.any (fun a => mA a != cur) ∧
+    ((bordersReads mA cur as).2 = true → ((bordersReads mA cur as).1.map mA).any (· != cur) = true) := by
+  induction as with
+  | nil => simp [bordersReads]
+  | cons a rest ih =>
+    unfold bordersReads
+    by_cases h : (mA a != cur) = true
+    · simp [h]
+    · rw [if_neg h]
+      simp only [Bool.not_eq_true] at h
+      simp only [List.any_cons, List.map_cons, h, Bool.false_or]
+      exact ih
+
+theorem any_filterMap {α β : Type} (l : List α) (f : α → Option β) (p : β → Bool) :
+    (l.filterMap f).any p = l.any (fun x => match f x with | some y => p y | none => false) := by
+  induction l with
+  | nil => rfl
+  | cons x rest ih =>
+    simp only [List.filterMap_cons, List.any_cons]
+    cases h : f x with
+    | none => simp [ih]
+    | some y => simp [ih]
+
+theorem any_congr_mem {α : Type} (l : List α) (p q : α → Bool) (h : ∀ x ∈ l, p x = q x) : l.any p = l.any q := by
+  induction l with
+  | nil => rfl
+  | cons x rest ih =>
+    simp only [List.any_cons]
+    rw [h x (List.mem_cons_self ..), ih (fun y hy => h y (List.mem_cons_of_mem _ hy))]
+
+theorem borders_solo_value (kcs : List KCall) (t : Nat) (md : Mode) (vA vOut vBc : C08.View) (bc : Array Int)
+    (mA : Int → Int) (aA aBc aOut aFd aReg : Nat)
+    (hk : kcs[t]? = some ((Kernel2.borders md vA vOut vBc bc mA).call ⟨[aA, aBc], [aOut, aFd, aReg]⟩))
+    (hA1 : aA ≠ aOut) (hA2 : aA ≠ aFd) (hA3 : aA ≠ aReg) (hO1 : aOut ≠ aFd) (hO2 : aOut ≠ aReg)
+    (labels : List Int) (hlen : labels.length = shapeSize vA.shape)
+    (hpos : ∀ d ∈ vA.shape, 0 < d) (hAlen : vA.strides.length = vA.shape.length)
+    (hoffs : ∀ d ∈ C07.footprint vBc.shape bc, d.length = vA.shape.length)
+    (hAv : ∀ q, inside vA.shape q = true → mA (vA.addr (q.map Int.toNat)) = labels.getD (ravelI vA.shape q) 0)
+    (m : Mem) (hm : ∀ a, m ((KLoc.mk aA a).toLoc (kcs.map (·.call))) = mA a)
+    (hZ : ∀ k, k < shapeSize vA.shape → m ((KLoc.mk aOut (iterAddr vOut k)).toLoc (kcs.map (·.call))) = 0)
+    (hinj : ∀ k k', k < shapeSize vA.shape → k' < shapeSize vA.shape →
+        iterAddr vOut k = iterAddr vOut k' → k = k')
+    (k : Nat) (hkn : k < shapeSize vA.shape) :
+    solo (compile kcs) t m ((KLoc.mk aOut (iterAddr vOut k)).toLoc (kcs.map (·.call))) =
+      if (C13.bordersModel md vA.shape labels (C07.footprint vBc.shape bc)).getD k false then 1 else 0 := by
+  let c : Call := ⟨[aA, aBc], [aOut, aFd, aReg]⟩
+  have hcne : c.outputs ≠ [] := by simp [c]
+  let calls := kcs.map (·.call)
+  let fp := C07.footprint vBc.shape bc
+  let cs : RStep → Step := fun r => (mkStep c r).compile calls
+  let N := shapeSize vA.shape
+  let G : Nat → Step := fun i => cs (bordersPixel md vA vOut fp mA i)
+  let l : Loc := (KLoc.mk aOut (iterAddr vOut k)).toLoc calls
+  have hprog : compile kcs t = (filterCopyRaw 1 vBc).map cs ++ (List.range N).map G := by
+    unfold compile
+    rw [hk]
+    simp only [KCall.prog, Kernel2.call, Kernel2.raw, bordersRaw, List.map_append, List.map_map]
+    rfl
+  have hpix : ∀ i, (G i).dst = (KLoc.mk aOut (iterAddr vOut i)).toLoc calls ∨
+      (G i).dst = (KLoc.mk aReg 0).toLoc calls := by
+    intro i
+    simp only [G, cs, bordersPixel]
+    split
+    · left; rfl
+    · right; rfl
+  have hother : ∀ i, i ≠ k → i < N → (G i).dst ≠ l := by
+    intro i hik hiN
+    rcases hpix i with h | h <;> rw [h]
+    · intro heq
+      have := congrArg KLoc.off (KLoc.toLoc_inj calls _ _ heq)
+      exact hik (hinj i k hiN hkn this)
+    · exact toLoc_ne_of_arr calls _ _ (fun h => hO2 h.symm)
+  have haA : aA ∉ c.outputs := by simp [c, hA1, hA2, hA3]
+  show solo (compile kcs) t m l = _
+  rw [solo_eq_execAll, hprog, step_solo _ G N k hkn l (fun i h1 h2 => hother i (by omega) h2) m]
+  obtain ⟨M0, hM0⟩ : ∃ M0, M0 = execAll ((filterCopyRaw 1 vBc).map cs ++ (List.range k).map G) m := ⟨_, rfl⟩
+  rw [← hM0]
+  have hM0A : ∀ a, M0 ((KLoc.mk aA a).toLoc calls) = mA a := by
+    intro a
+    rw [hM0, ← hm a]
+    apply execAll_frame
+    intro s hs
+    rcases List.mem_append.1 hs with h | h
+    · obtain ⟨r, _, rfl⟩ := List.mem_map.1 h
+      exact compiled_dst_ne calls c hcne r _ haA
+    · obtain ⟨i, _, rfl⟩ := List.mem_map.1 h
+      exact compiled_dst_ne calls c hcne _ _ haA
+  have hM0l : M0 l = 0 := by
+    rw [hM0, ← hZ k hkn]
+    apply execAll_frame
+    intro s hs
+    rcases List.mem_append.1 hs with h | h
+    · obtain ⟨r, hr, rfl⟩ := List.mem_map.1 h
+      simp only [filterCopyRaw, List.mem_map] at hr
+      obtain ⟨x, _, rfl⟩ := hr
+      exact toLoc_ne_of_arr calls _ _ (by simp [mkStep, Call.arrOf, c]; exact fun h => hO1 h.symm)
+    · obtain ⟨i, hi, rfl⟩ := List.mem_map.1 h
+      have := List.mem_range.1 hi
+      exact hother i (by omega) (by omega)
+  -- the pixel itself
+  let p := unravelI vA.shape k
+  have hpin : inside vA.shape p = true := C01.inside_unravelI _ _ hkn
+  let cur := mA (iterAddr vA k)
+  have hcur : cur = labels.getD k 0 := by
+    show mA (iterAddr vA k) = _
+    rw [iterAddr_eq_addr vA hAlen k hkn, ← unravelI_toNat, hAv _ hpin, C01.ravelI_unravelI _ _ hkn]
+  let addrs := fp.filterMap fun d => nbrAddr md vA (addPos p d)
+  let r := bordersReads mA cur addrs
+  have hmodel : (C13.bordersModel md vA.shape labels fp).getD k false = r.2 := by
+    unfold C13.bordersModel
+    rw [List.getD_eq_getElem?_getD, List.getElem?_map, List.getElem?_range (by omega)]
+    simp only [Option.map_some, Option.getD_some]
+    rw [(bordersReads_spec mA cur addrs).1, any_filterMap]
+    apply any_congr_mem
+    intro kk hkk
+    cases hfix : fixPos md vA.shape (addPos (unravelI vA.shape k) kk) with
+    | none => simp [nbrAddr, p, hfix]
+    | some q =>
+      have hqin : inside vA.shape q = true :=
+        C08.fixPos_inside md vA.shape _ q hpos (by
+          rw [C01.addPos_length, hoffs kk hkk, Mahotas.unravelI_length]; simp) hfix
+      simp only [nbrAddr, p, hfix, Option.map_some]
+      rw [hAv q hqin, hcur]
+  rw [hmodel]
+  by_cases hr : r.2 = true
+  · rw [if_pos hr]
+    have hG : G k = cs ⟨0, iterAddr vOut k, ⟨.inp 0, iterAddr vA k⟩ :: r.1.map (fun a => ⟨.inp 0, a⟩),
+        fun vs => match vs with | cur :: ns => if ns.any (· != cur) then 1 else 0 | _ => 0⟩ := by
+      simp only [G, bordersPixel]
+      rw [if_pos hr]
+      rfl
+    have hd : (G k).dst = l := by rw [hG]; rfl
+    have hvals : (G k).srcs.map M0.get = cur :: r.1.map mA := by
+      rw [hG]
+      simp only [cs, KStep.compile, mkStep, List.map_cons, List.map_map]
+      congr 1
+      · exact hM0A _
+      · apply List.map_congr_left
+        intro a _
+        exact hM0A a
+    have hop : (G k).op = fun vs => match vs with
+        | cur :: ns => if ns.any (· != cur) then 1 else 0 | _ => 0 := by rw [hG]; rfl
+    rw [← hd, exec_dst, hvals, hop]
+    simp only
+    rw [(bordersReads_spec mA cur addrs).2 hr]
+    rfl
+  · rw [if_neg hr]
+    have hG : (G k).dst = (KLoc.mk aReg 0).toLoc calls := by
+      simp only [G, cs, bordersPixel]
+      rw [if_neg hr]
+      rfl
+    rw [exec_frame _ _ _ (by rw [hG]; exact toLoc_ne_of_arr calls _ _ hO2), hM0l]
+
+
 end Mahotas.C12
 
 /-! # property theorems (to be placed in `Properties/C12.lean`) -/
@@ -1450,6 +1622,35 @@ theorem C12_cooccurence_program_computes_model (kcs : List KCall) (t : Nat) (vA 
       (((C19.coocModel mm im d).getD (i * mm + j) 0 : Nat) : Int) :=
   cooccurence_solo_value kcs t vA vR vBc bc mA aA aBc aRes aFd aReg hk hA1 hA2 hA3 hR1 hR d rest hfp hd mm im
     hshape hAlen hAv hval hRinj m hm hZ i j hi hj
+
+/-- **C12-T4 (tie: the borders program computes `C13.bordersModel`).** Let call number `t` of ANY family of calls be
+`borders` (any border mode, any structuring element of the image's rank, any view of the labeled image with one
+stride per axis and positive axis lengths) on arrays `[aA, aBc]` → `[aOut, aFd, aReg]` (result, `filter_data_`,
+register), the image array distinct from the owned ones and the result array from the other two. Let the initial
+memory of array `aA` be the memory `mA` the program was generated from, presenting the flat label list `labels`,
+let the result start at zero (`labeled.borders` zero-fills it) and not overlap itself. Then after the SOLO run
+of the compiled step program — per pixel the neighbours are read up to the first one that differs and `true` is
+stored only then; other pixels store nothing — the result location of pixel `k` holds `1` exactly when
+`(C13.bordersModel mode shape labels footprint)[k]` is `true` and `0` otherwise: the model the driver runs
+(`c13 kind=borders`). With `C12_concurrent_calls_independent` the same values are there after every complete
+interleaving with any other calls that have disjoint outputs. -/
+theorem C12_borders_program_computes_model (kcs : List KCall) (t : Nat) (md : Mode) (vA vOut vBc : C08.View)
+    (bc : Array Int) (mA : Int → Int) (aA aBc aOut aFd aReg : Nat)
+    (hk : kcs[t]? = some ((Kernel2.borders md vA vOut vBc bc mA).call ⟨[aA, aBc], [aOut, aFd, aReg]⟩))
+    (hA1 : aA ≠ aOut) (hA2 : aA ≠ aFd) (hA3 : aA ≠ aReg) (hO1 : aOut ≠ aFd) (hO2 : aOut ≠ aReg)
+    (labels : List Int) (hlen : labels.length = shapeSize vA.shape)
+    (hpos : ∀ d ∈ vA.shape, 0 < d) (hAlen : vA.strides.length = vA.shape.length)
+    (hoffs : ∀ d ∈ C07.footprint vBc.shape bc, d.length = vA.shape.length)
+    (hAv : ∀ q, inside vA.shape q = true → mA (vA.addr (q.map Int.toNat)) = labels.getD (ravelI vA.shape q) 0)
+    (m : Mem) (hm : ∀ a, m ((KLoc.mk aA a).toLoc (kcs.map (·.call))) = mA a)
+    (hZ : ∀ k, k < shapeSize vA.shape → m ((KLoc.mk aOut (iterAddr vOut k)).toLoc (kcs.map (·.call))) = 0)
+    (hinj : ∀ k k', k < shapeSize vA.shape → k' < shapeSize vA.shape →
+        iterAddr vOut k = iterAddr vOut k' → k = k')
+    (k : Nat) (hkn : k < shapeSize vA.shape) :
+    solo (compile kcs) t m ((KLoc.mk aOut (iterAddr vOut k)).toLoc (kcs.map (·.call))) =
+      if (C13.bordersModel md vA.shape labels (C07.footprint vBc.shape bc)).getD k false then 1 else 0 :=
+  borders_solo_value kcs t md vA vOut vBc bc mA aA aBc aOut aFd aReg hk hA1 hA2 hA3 hO1 hO2 labels hlen hpos hAlen
+    hoffs hAv m hm hZ hinj k hkn
 
 /-! ## non-vacuity -/
 
